@@ -82,7 +82,8 @@ func TarHdrToMetadata(hdr *tar.Header, fmeta *fs.Metadata) (skipMe error, haltMe
 
 func tarTypeToFsType(tarType byte) (_ fs.Type, skipMe error) {
 	switch tarType {
-	case tar.TypeReg, tar.TypeRegA, tar.TypeGNUSparse:
+	case tar.TypeReg, tar.TypeRegA, tar.TypeGNUSparse, tar.TypeCont:
+		// ('7', a "contiguous file", is a regular file to POSIX, GNU tar and archive/tar alike.)
 		// (an old-GNU sparse entry, 'S', is a regular file: archive/tar hands us its expanded body.)
 		return fs.Type_File, nil
 	case tar.TypeLink:
